@@ -144,8 +144,11 @@ def split_trace(path, max_events, scratch):
 
 
 def validate_chunk(args):
-    tracespec, cfg, path, nev, prop, scratch, idx = args
-    r = run_tlc(tracespec, cfg, scratch, env={"VERIF_TRACE": path, "VERIF_PROP": prop}, workers=1, timeout=3600,
+    tracespec, cfg, path, nev, prop, scratch, idx, schema = args
+    env = {"VERIF_TRACE": path, "VERIF_PROP": prop}
+    if schema:
+        env["VERIF_SCHEMA"] = schema
+    r = run_tlc(tracespec, cfg, scratch, env=env, workers=1, timeout=3600,
                 tag="%s-%s-%s-%03d" % (os.path.splitext(tracespec)[0], prop, os.path.basename(path)[:40], idx))
     if r["error"] or not r["completed"] or r["violated"]:
         raise Broken("trace validation did not complete on %s:\n%s" % (path, (r["error"] or r["out"][-2500:])))
@@ -160,9 +163,9 @@ def validate_chunk(args):
     return {"nchk": nchk, "bad": bad, "generated": r["generated"], "distinct": r["distinct"], "wall_s": r["wall_s"], "cmd": r["cmd"]}
 
 
-def validate_trace(path, prop, scratch, tracespec="TraceWire.tla", cfg="TraceWire.cfg", chunk=1500):
+def validate_trace(path, prop, scratch, tracespec="TraceWire.tla", cfg="TraceWire.cfg", chunk=1500, schema=None):
     parts = split_trace(path, chunk, scratch)
-    jobs = [(tracespec, cfg, p, n, prop, scratch, i) for i, (p, n) in enumerate(parts)]
+    jobs = [(tracespec, cfg, p, n, prop, scratch, i, schema) for i, (p, n) in enumerate(parts)]
     res = {"nchk": 0, "bad": [], "generated": 0, "distinct": 0, "chunks": len(jobs), "cmd": ""}
     with concurrent.futures.ThreadPoolExecutor(max_workers=max(1, NCPU // 2)) as ex:
         for r in ex.map(validate_chunk, jobs):
@@ -257,11 +260,30 @@ class Run:
         return r
 
     # -- traces ----------------------------------------------------------------------------
-    def trace(self, driver, n, tracespec="TraceWire.tla", cfg="TraceWire.cfg", types=None, seed_off=0, chunk=1500, prop=None, extra_env=None, small=False):
+    def trace(self, driver, n, tracespec="TraceWire.tla", cfg="TraceWire.cfg", types=None, seed_off=0, chunk=1500, prop=None, extra_env=None, small=False,
+              patch_tables=False):
         vd = self.build()
         seed = self.seed + seed_off
         path, st = record(vd, driver, seed, n, self.scratch, types=types, extra_env=extra_env, small=small)
-        res = validate_trace(path, prop or self.prop, self.scratch, tracespec, cfg, chunk)
+        schema = None
+        if patch_tables:
+            # the run registered discriminators at run time: judge it against the tables as the application changed them
+            sch = json.load(open(SCHEMA))
+            nreg = 0
+            for line in open(path):
+                if '"op":"regfactory"' not in line:
+                    continue
+                e = json.loads(line)
+                ents = sch["tables"][e["from"]]["entries"]
+                ents[:] = [x for x in ents if x["key"] != e["bytes"]]
+                ents.append({"key": e["bytes"], "type": e["t"], "lit": "dynamic"})
+                nreg += 1
+            if nreg == 0:
+                raise Broken("driver %s logged no registration" % driver)
+            schema = os.path.join(self.scratch, "schema-patched-%s.json" % driver)
+            json.dump(sch, open(schema, "w"))
+            self.cov["dynamic_registrations"] = nreg
+        res = validate_trace(path, prop or self.prop, self.scratch, tracespec, cfg, chunk, schema=schema)
         if res["nchk"] != st["events"]:
             raise Broken("TLC validated %d events, recorder wrote %d" % (res["nchk"], st["events"]))
         self.cov["traces_validated_against_impl"] += st["histories"]
